@@ -827,6 +827,8 @@ def check(prog, rep):
         if pub is None:
             raise AnalysisIncomplete('public op %s.%s not found' % (modname, fname))
         entry = '%s[dask]' % fname
+        from ..sharedrules import check_value_truthiness
+        check_value_truthiness(prog, rep, 'H0-truth', pub, entry)
         disp = find_dispatch(prog, pub)
         if disp is None:
             raise AnalysisIncomplete('%s: backend dispatch (numpy + dask) not found' % fname)
